@@ -801,6 +801,7 @@ func caseSQLWrite(s *hlib.Suite, f frameSpec) {
 func main() {
 	cfg := hlib.ParseFlags()
 	s := hlib.NewSuite(cfg, "iofault")
+	defer s.FinishOnPanic()
 	s.Header = "From QF Require Import Base.Prelude Base.CaseLib Model.Sql Model.IOFault Corr.IOCorr.\nLocal Open Scope N_scope.\n"
 	s.CaseType = "iof_case"
 	s.CheckFn = "check_iofault"
